@@ -23,7 +23,7 @@ sys.path.insert(0, vlib.REPO)
 PYCORR = {
     "C01": ["normalize_bcast_dims", "get_bcasted_dims"], "C11": ["normalize_bcast_dims", "get_bcasted_dims"],
     "C14": ["normalize_bcast_dims", "get_bcasted_dims"],
-    "C04": ["separator"], "C08": ["separator"],
+    "C04": ["separator"], "C08": ["separator", "tensorpacker"], "C07": ["tensorpacker"],
     "C09": ["uniquifier", "purefunction", "editable_module"], "C10": ["uniquifier", "purefunction", "editable_module"],
     "C18": ["set_default_option", "get_and_pop_keys", "get_method"],
     "C20": ["packer_unique_idxs"],
